@@ -220,6 +220,19 @@ def _preserve_units(unit1, unit2=None):
     return 1, unit1
 
 
+def _delta_unit(delta, registry):
+    # the difference unit belongs to the operands' registry, like every other
+    # result unit
+    if registry is delta.registry:
+        return delta
+    return Unit(
+        delta.expr,
+        base_value=delta.base_value,
+        dimensions=delta.dimensions,
+        registry=registry,
+    )
+
+
 @_unit_rule_cache
 def _difference_units(unit1, unit2=None):
     if unit1.dimensions is not temperature:
@@ -246,9 +259,9 @@ def _difference_units(unit1, unit2=None):
         return 1, unit1
 
     if s1 == "degF":
-        return 1, delta_degF
+        return 1, _delta_unit(delta_degF, unit1.registry)
     elif s1 == "degC":
-        return 1, delta_degC
+        return 1, _delta_unit(delta_degC, unit1.registry)
     else:
         # This is supposed to be unreachable
         raise RuntimeError(
